@@ -448,7 +448,7 @@ def getitem_v(it, o, idx):
             return SInt(simp(z3.StrToCode(z3.SubString(o.t, i, 1))))
         if isinstance(o, SStr):
             return SStr(simp(z3.SubString(o.t, i, 1)))
-        return o.wrap(simp(o.t[i]))
+        return seq_elem(it, o, i)
     if isinstance(o, (STuple, SList)):
         if not isinstance(idx, (SInt, SBool, SEnum)):
             it.raise_(TypeError, "indices must be integers")
@@ -477,6 +477,14 @@ def getitem_v(it, o, idx):
             pass
         return o
     raise Unsupported(f"subscript of {o!r}")
+
+
+def seq_elem(it, o, i):
+    """element i (in range) of a symbolic sequence, with the membership lemma instantiated at this term"""
+    e = simp(o.t[i])
+    it.ex.assume(z3.Contains(o.t, z3.Unit(e)))  # valid for 0 <= i < len (checked by the caller)
+    it.ex.note("lemma", "seq-membership: 0<=i<len(s) => s[i] in s (instantiated per indexing term)")
+    return o.wrap(e)
 
 
 def setitem(it, o, node, v):
